@@ -59,13 +59,19 @@ ANCHORS = ["glue.core.data_exporters.astropy_table:data_to_astropy_table", "glue
 N_TABLE = {"quick": 820, "thorough": 12000}
 N_IMAGE = {"quick": 560, "thorough": 8000}
 N_SESSION = {"quick": 144, "thorough": 900}
-N_CHAIN = {"quick": 160, "thorough": 1600}
+N_CHAIN = {"quick": 128, "thorough": 1600}
+N_BIG = {"quick": 8, "thorough": 32}
 
 TABLE_FORMATS = {"csv": ("Comma-separated table", ["csv"]), "fits_table": ("FITS Table", ["fits", "fit"]),
                  "votable": ("VO Table", ["xml", "vot"]), "hdf5": ("HDF5", ["hdf5"])}
 IMAGE_FORMATS = {"gridded_fits": ("FITS (1 component/HDU)", ["fits", "fit"]), "hdf5": ("HDF5", ["hdf5"])}
 NAMES = ["zeta", "Amp", "name_1", "b2", "flux", "K", "idx", "mag", "q7", "x", "Dist", "y_err"]
-SUBSET_KINDS = ["data", "full", "proper", "single", "empty"]
+SUBSET_KINDS = ["data", "full", "proper", "single", "empty", "first", "last"]
+# names at the edge of what every format accepts (one class per table at most; tallied as name_class_*)
+EDGE_NAMES = {"digit_first": ["2mass", "3C"], "underscore_first": ["_x", "__id"], "long_60": ["L" + "o" * 58 + "g"],
+              "single_char": ["a", "Z"], "all_upper": ["FLUX", "RA"], "numeric_looking": ["123", "1e5", "nan"],
+              "reserved_looking": ["mask", "data", "name", "unit", "END", "NAXIS", "index", "None", "class"],
+              "shared_prefix": ["flux", "flux_err", "flux_err2", "fl"]}
 
 _EXPORTERS = {}
 
@@ -79,6 +85,7 @@ def exporter(label):
 
 # ---------------------------------------------------------------- content generators
 F64_POOL = [1.5, -2.25, 0.0, -0.0, 2.0, -7.0, 1e-300, 1e300, 0.1 + 0.2, 1.0 / 3.0, 123456789.12345679, 5e-324,
+            1.000000001, 1.0, 1e12 + 0.5, 1e-10, -1e12, 2.0 ** 53,
             float("nan"), float("nan"), float("inf"), float("-inf")]
 STR_CLASSES = {
     "plain": ["ab", "xyz", "q", "Hello", "north", "B"],
@@ -89,11 +96,14 @@ STR_CLASSES = {
     "has_empty": ["", "ab", "xyz", ""],
     "edge_space": [" lead", "trail ", "ab", " both "],
     "non_ascii": ["café", "ab", "über", "xyz"],
+    "shared_prefix": ["a", "ab", "abc", "abcdefghijklmnopqrstuvwxyz", "ab "[:2]],     # labels sharing prefixes, very different widths
+    "all_same": ["north"],
+    "object": ["ab", "xyz", "Hello", "q"],                                       # stored as an object array
 }
 # "has_empty" ('' is indistinguishable from a missing entry in CSV and comes back as 'nan') and "edge_space"
 # (leading / trailing blanks are stripped by the ascii formats) are at the edge of "clearly non-numeric text ...
 # preserved up to the format's encoding": they are kept out of the generated domain rather than judged.
-STR_WEIGHTS = ["plain"] * 6 + ["inner_space"] * 3 + ["comma"] * 2 + ["quote"] * 2 + ["na_like"] * 2 + ["non_ascii"]
+STR_WEIGHTS = ["shared_prefix"] * 2 + ["all_same"] + ["object"] + ["plain"] * 6 + ["inner_space"] * 3 + ["comma"] * 2 + ["quote"] * 2 + ["na_like"] * 2 + ["non_ascii"]
 
 
 BE_KINDS = {"f64be": ("f64", ">f8"), "f32be": ("f32", ">f4"), "i32be": ("i32", ">i4"), "i16be": ("i16", ">i2")}
@@ -124,6 +134,18 @@ def gen_column(rng, kind, shape, image=False):
         return np.array(vals, dtype=np.int32).reshape(shape)
     if kind == "i16":
         return np.array([rng.randint(-300, 300) for _ in range(n)], dtype=np.int16).reshape(shape)
+    if kind == "i8":
+        return np.array([rng.choice([-128, 127, 0, 5]) for _ in range(n)], dtype=np.int8).reshape(shape)
+    if kind == "u16":
+        return np.array([rng.choice([0, 65535, 300, 7]) for _ in range(n)], dtype=np.uint16).reshape(shape)
+    if kind == "u32":
+        return np.array([rng.choice([0, 2 ** 32 - 1, 2 ** 31, 7]) for _ in range(n)], dtype=np.uint32).reshape(shape)
+    if kind == "f64:allnan":
+        return np.full(shape, np.nan)
+    if kind == "i64:zeros":
+        return np.zeros(shape, dtype=np.int64)
+    if kind == "f64:integral":
+        return np.array([float(rng.randint(-5, 5)) for _ in range(n)]).reshape(shape)
     if kind == "u8":
         return np.array([rng.randint(0, 255) for _ in range(n)], dtype=np.uint8).reshape(shape)
     if kind.startswith("str:"):
@@ -132,66 +154,190 @@ def gen_column(rng, kind, shape, image=False):
         special = [p_ for p_ in pool if p_ not in STR_CLASSES["plain"]]
         if special and not any(v in special for v in vals):
             vals[rng.randrange(n)] = rng.choice(special)      # the class is actually present in the column
-        return np.array(vals, dtype=str).reshape(shape)
+        return np.array(vals, dtype=object if kind == "str:object" else str).reshape(shape)
     raise ValueError(kind)
 
 
 def kind_family(kind):
     if kind.startswith("str:"):
         return "str"
+    if kind in ("f64:allnan", "f64:integral", "dask"):
+        return "float"
+    if kind in ("i8", "i64:zeros"):
+        return "int"
+    if kind in ("u16", "u32"):
+        return "uint"
     return {"f64": "float", "f32": "float", "i64": "int", "i32": "int", "i16": "int", "u8": "uint", "derived": "float",
             "f64be": "float", "f32be": "float", "i32be": "int", "i16be": "int"}[kind]
 
 
-def gen_table(rng):
-    n = rng.choice([1, 2, 3, 3, 4, 5, 6, 8])
+def relayout(rng, arr, image=False):
+    """The same values in another memory layout (what a sliced / transposed / Fortran-read array looks like)."""
+    kinds = ["c", "c", "strided", "reversed"] + (["fortran", "transposed_copy"] if image else [])
+    kind = rng.choice(kinds)
+    if arr.dtype.kind == "O":
+        return arr, "c"
+    if kind == "fortran":
+        return np.asfortranarray(arr), kind
+    if kind == "strided":
+        big = np.zeros((arr.shape[0] * 2,) + arr.shape[1:], dtype=arr.dtype)
+        big[::2] = arr
+        return big[::2], kind
+    if kind == "reversed":
+        return arr[::-1].copy()[::-1], kind
+    if kind == "transposed_copy":
+        return arr.T.copy().T, kind
+    return arr, "c"
+
+
+def pick_kind(rng, used_str, table=True):
+    r = rng.random()
+    if r < 0.07:
+        return rng.choice(sorted(BE_KINDS))
+    if r < 0.25:
+        return "f64"
+    if r < 0.31:
+        return rng.choice(["f64:allnan", "f64:integral"])
+    if r < 0.38:
+        return "f32"
+    if r < 0.50:
+        return "i64"
+    if r < 0.53:
+        return "i64:zeros"
+    if r < 0.62:
+        return rng.choice(["i32", "i16", "i8"])
+    if r < 0.68:
+        return rng.choice(["u8", "u8", "u16", "u32"]) if table else "u8"
+    if not table:
+        return "f64"
+    if not used_str:
+        return "str:" + rng.choice(STR_WEIGHTS)
+    return "str:plain"
+
+
+def gen_table(rng, ctx=None, index=None):
+    """`index` (the case number) fixes the rare essential classes so that any prefix of the case list covers them."""
+    n = rng.choice([1, 2, 3, 3, 4, 5, 6, 8, 8, 120, 300])
     ncol = rng.randint(1, 5)
-    names = rng.sample(NAMES, ncol + 1)
+    many = rng.random() < 0.04 if index is None else index % 25 == 7
+    if index is not None and index % 10 == 3:
+        n = rng.choice([120, 300])
+    if many:
+        ncol, n = rng.choice([40, 120, 250]), rng.choice([1, 3])
+        names = ["c%03d_%s" % (k, rng.choice(["x", "Y", "z2"])) for k in range(ncol + 1)]
+        rng.shuffle(names)
+    else:
+        names = rng.sample(NAMES, ncol + 1)
+        if (rng.random() < 0.25) if index is None else (index % 2 == 0):
+            cls = rng.choice(sorted(EDGE_NAMES)) if index is None else sorted(EDGE_NAMES)[(index // 2) % len(EDGE_NAMES)]
+            edge = list(EDGE_NAMES[cls])
+            rng.shuffle(edge)
+            for k, nm in enumerate(edge[:rng.randint(1, min(len(edge), ncol))]):
+                names[k] = nm
+            spare = [x for x in NAMES if x.lower() not in [y.lower() for y in names]]
+            for k in range(len(names)):          # names stay distinct (also ignoring case: FITS)
+                if names[k].lower() in [y.lower() for y in names[:k]]:
+                    names[k] = spare.pop()
+            rng.shuffle(names)
+            if ctx is not None:
+                ctx.count("name_class_%s" % cls)
+    if ctx is not None:
+        if many:
+            ctx.count("tables_with_40_or_more_columns")
+        if n >= 100:
+            ctx.count("tables_with_100_or_more_rows")
     cols = []
     used_str = False
     for j in range(ncol):
-        r = rng.random()
-        if r < 0.07:
-            kind = rng.choice(sorted(BE_KINDS))
-        elif r < 0.28:
-            kind = "f64"
-        elif r < 0.36:
-            kind = "f32"
-        elif r < 0.52:
-            kind = "i64"
-        elif r < 0.60:
-            kind = rng.choice(["i32", "i16"])
-        elif r < 0.65:
-            kind = "u8"
-        elif not used_str:
-            kind = "str:" + rng.choice(STR_WEIGHTS)
-            used_str = True
-        else:
-            kind = "str:plain"
+        kind = pick_kind(rng, used_str) if not many else rng.choice(["f64", "i64", "str:plain", "f32"])
+        used_str = used_str or kind.startswith("str:")
         cols.append([names[j], kind, gen_column(rng, kind, (n,))])
+    if n >= 100:
+        # enough rows to leave small-array code paths, with duplicates
+        for c in cols:
+            if c[1] in ("f64", "i64") and rng.random() < 0.5:
+                c[2][n // 2:] = c[2][: n - n // 2]
+    if ncol >= 2 and rng.random() < 0.1 and cols[0][1] == "f64":
+        cols[1][1], cols[1][2] = cols[0][1], cols[0][2]       # the same array object stored under two names
+        if ctx is not None:
+            ctx.count("tables_with_one_array_under_two_names")
     d = Data(label="tab")
     for name, kind, vals in cols:
-        d.add_component(vals, name)
+        arr, lay = relayout(rng, vals)
+        if ctx is not None:
+            ctx.count("column_layout_%s" % lay)
+        d.add_component(arr, name)
     floats = [c for c in cols if c[1] == "f64"]
     if floats and rng.random() < 0.3:
         src = floats[0]
         d.add_component_link(d.id[src[0]] * 2 + 1, names[ncol])
         cols.append([names[ncol], "derived", src[2] * 2 + 1])
+    if not many and rng.random() < 0.06:
+        import dask.array as da
+        from glue.core.component import DaskComponent
+        vals = np.array([round(rng.uniform(-5, 5), 3) for _ in range(n)])
+        d.add_component(DaskComponent(da.from_array(vals, chunks=2)), "dk_col")
+        cols.insert(len([c for c in cols if c[1] != "derived"]), ["dk_col", "dask", vals])
+    if len(cols) >= 3 and (rng.random() < 0.15 if index is None else index % 6 == 1):
+        # components reordered after creation: the exported order is the dataset's current order
+        main = [c for c in cols if c[1] != "derived"]
+        rng.shuffle(main)
+        try:
+            want = [d.id[c[0]] for c in main] + [d.id[c[0]] for c in cols if c[1] == "derived"]
+            coord = [c for c in d.components if not any(c is w_ for w_ in want)]
+            d.reorder_components(coord + want)
+            cols = main + [c for c in cols if c[1] == "derived"]
+            if ctx is not None:
+                ctx.count("tables_with_reordered_components")
+        except Exception as e:
+            if ctx is not None:
+                ctx.count("harness_reorder_components_failed_%s" % exc_name(e))
     return d, cols, (n,)
 
 
-def gen_image(rng):
+def gen_image(rng, ctx=None):
     nd = rng.choice([2, 2, 3])
     shape = tuple(rng.randint(1, 4) for _ in range(nd))
+    if rng.random() < 0.05:
+        shape = (rng.randint(60, 150), rng.randint(60, 150))
     ncol = rng.randint(1, 3)
     names = rng.sample(NAMES, ncol)
     cols = []
     for j in range(ncol):
-        kind = rng.choice(["f64", "f64", "f32", "i64", "i64", "i32", "i16", "u8", "f64be", "f32be", "i32be", "i16be"])
+        kind = pick_kind(rng, True, table=False)
         cols.append([names[j], kind, gen_column(rng, kind, shape, image=True)])
-    d = Data(label="img")
+    kw = {}
+    ckind = rng.choice(["none", "none", "identity", "affine", "wcs"])
+    if ckind == "identity":
+        from glue.core.coordinates import IdentityCoordinates
+        kw["coords"] = IdentityCoordinates(n_dim=nd)
+    elif ckind == "affine":
+        from glue.core.coordinates import AffineCoordinates
+        m = np.eye(nd + 1)
+        m[0, 0], m[0, nd] = 2.0, 1.0
+        kw["coords"] = AffineCoordinates(m)
+    elif ckind == "wcs":
+        from astropy.wcs import WCS
+        wcs = WCS(naxis=nd)
+        wcs.wcs.ctype = ["X%d" % k for k in range(nd)]
+        wcs.wcs.cdelt = [0.5 + k for k in range(nd)]
+        wcs.wcs.crval = [10.0] * nd
+        wcs.wcs.crpix = [1.0] * nd
+        kw["coords"] = wcs
+    if ctx is not None:
+        ctx.count("images_with_coords_%s" % ckind)
+    d = Data(label="img", **kw)
     for name, kind, vals in cols:
-        d.add_component(vals, name)
+        if kind == "f64" and rng.random() < 0.1:
+            row = gen_column(rng, "f64", shape[-1:], image=True)
+            vals = np.broadcast_to(row, shape)                      # stride-0, read-only
+            cols[[c[0] for c in cols].index(name)][2] = vals
+            arr, lay = vals, "broadcast"
+        else:
+            arr, lay = relayout(rng, vals, image=True)
+        if ctx is not None:
+            ctx.count("image_layout_%s" % lay)
+        d.add_component(arr, name)
     return d, cols, shape
 
 
@@ -209,14 +355,34 @@ def gen_mask(rng, shape, kind):
         m[rng.sample(range(n), k)] = True
     elif kind == "empty":
         pass
+    elif kind == "first":
+        m[0] = True
+    elif kind == "last":
+        m[-1] = True
     return m.reshape(shape)
 
 
-def make_subset(dc, d, mask, table):
+def make_subset(dc, d, mask, table, rng=None, ctx=None):
+    how = "plain"
     if table:
-        state = ElementSubsetState(indices=np.nonzero(mask)[0], data=d)
+        idx = np.nonzero(mask)[0]
+        if rng is not None and len(idx) and rng.random() < 0.3:
+            # the same selection written with out-of-order and duplicate indices
+            idx = list(idx) + [int(rng.choice(list(idx))) for _ in range(rng.randint(1, 3))]
+            rng.shuffle(idx)
+            idx = np.array(idx)
+            how = "unordered_duplicate_indices"
+        elif rng is not None and len(idx) and rng.random() < 0.2 and np.array_equal(idx, np.arange(idx[0], idx[-1] + 1)):
+            from glue.core.subset import SliceSubsetState
+            lo, hi = int(idx[0]), int(idx[-1])
+            state = SliceSubsetState(d, [slice(hi, lo - 1 if lo > 0 else None, -1)])      # a backward slice, same rows
+            how = "backward_slice"
+        if how != "backward_slice":
+            state = ElementSubsetState(indices=idx, data=d)
     else:
         state = MaskSubsetState(mask, d.pixel_component_ids)
+    if ctx is not None:
+        ctx.count("subset_defined_by_%s" % how)
     dc.new_subset_group(subset_state=state, label="sel")
     return d.subsets[-1]
 
@@ -301,6 +467,16 @@ def compare_column(kind, orig, got_kind, got, fmt):
     return False, "int_dtype"
 
 
+def name_class_of(names):
+    """Which class of edge names (if any) a table's exported columns carry - a structural key for signatures."""
+    if len(names) > 30:
+        return "many_columns"
+    for cls in sorted(EDGE_NAMES):
+        if cls != "shared_prefix" and any(n in EDGE_NAMES[cls] for n in names):
+            return cls
+    return None
+
+
 def as_list(back):
     if back is None:
         return []
@@ -330,7 +506,7 @@ def describe_cols(cols):
 
 
 # ---------------------------------------------------------------- one trip
-def trip(ctx, scratch, fmt, spec, table, d, dc, cols, shape, skind, stem, chained=False):
+def trip(ctx, scratch, fmt, spec, table, d, dc, cols, shape, skind, stem, chained=False, plain=False):
     """Export with one format, load back, compare.  Everything glue does is inside try blocks and classified."""
     rng = ctx.rng
     label, exts = spec
@@ -342,7 +518,7 @@ def trip(ctx, scratch, fmt, spec, table, d, dc, cols, shape, skind, stem, chaine
     obj = d
     if skind != "data":
         try:
-            obj = make_subset(dc, d, mask, table)
+            obj = make_subset(dc, d, mask, table, rng, ctx)
             real_mask = np.asarray(obj.to_mask())
         except Exception as e:
             ctx.count("harness_subset_construction_failed_%s" % exc_name(e))
@@ -352,20 +528,55 @@ def trip(ctx, scratch, fmt, spec, table, d, dc, cols, shape, skind, stem, chaine
             return
     selected = [c for c in cols]
     kw = {}
-    if len(cols) > 1 and rng.random() < 0.2:
+    if len(cols) > 1 and not plain and rng.random() < 0.2:
         keep = sorted(rng.sample(range(len(cols)), rng.randint(1, len(cols) - 1)))
         selected = [cols[i] for i in keep]
         kw["components"] = [d.id[c[0]] for c in selected]
+        rng.shuffle(kw["components"])       # the order of the selection is not the exported order (the dataset's is)
         ctx.count("trips_with_components_selection")
     path = scratch.path(stem, rng.choice(exts))
     nrows = int(mask.sum())
     rows = "zero" if nrows == 0 else ("one" if nrows == 1 else "many")
     kinds = sorted(set(c[1] for c in selected))
-    sig0 = {"format": fmt, "content": "table" if table else "image", "subset": skind, "rows": rows if table else None}
+    sig0 = {"format": fmt, "content": "table" if table else "image", "subset": skind, "rows": rows if table else None,
+            "names": name_class_of([c[0] for c in selected])}
     if chained:
         sig0["source"] = "loaded_from_fits"
     detail = lambda **k: dict(columns=describe_cols(selected), shape=list(shape), mask=mask, format=fmt, subset=skind,
                               file=os.path.basename(path), components_selected="components" in kw, **k)
+    # ---- histories around the write: the path already holds another export / a failed export; a failed load precedes
+    r = 1.0 if plain else rng.random()
+    if r < 0.12:
+        decoy = Data(label="decoy")
+        decoy.add_component(np.arange(int(np.prod(shape)) + 3, dtype=float).reshape((-1,) if table else (int(np.prod(shape)) + 3, 1)), "zz_decoy")
+        try:
+            exporter(label)(path, decoy)
+            ctx.count("writes_over_an_existing_export")
+        except Exception as e:
+            ctx.count("decoy_write_failed_%s_%s" % (fmt, exc_name(e)))
+    elif r < 0.20:
+        bad = Data(label="bad")
+        bad.add_component(np.arange(3.0), "ok_first")
+        if fmt == "fits_table":
+            bad.add_component(np.array(["é", "ü", "x"]), "text")
+        else:
+            bad.add_component(np.array(["2001-01-01", "2001-01-02", "2001-01-03"], dtype="datetime64[ns]"), "when")
+        try:
+            exporter(label)(path, bad)
+            ctx.count("fault_write_unexpectedly_succeeded_%s" % fmt)
+        except Exception as e:
+            ctx.count("fault_failed_write_before_valid_write_%s" % fmt)
+    elif r < 0.26:
+        for bogus in (path + ".missing." + path.rsplit(".", 1)[1], None):
+            try:
+                if bogus is None:
+                    bogus = scratch.path(stem + "_garbage", path.rsplit(".", 1)[1])
+                    with open(bogus, "wb") as fh:
+                        fh.write(b"\x00\x01 not a data file \xff" * 3)
+                load_data(bogus)
+                ctx.count("fault_load_of_bad_file_returned")
+            except Exception as e:
+                ctx.count("fault_failed_load_before_valid_load")
     # ---- write
     try:
         exporter(label)(path, obj, **kw)
@@ -375,9 +586,14 @@ def trip(ctx, scratch, fmt, spec, table, d, dc, cols, shape, skind, stem, chaine
             # text the format's encoding cannot hold, refused loudly: outside the statement, tallied
             ctx.count("write_refused_non_ascii_%s_%s" % (fmt, exc_name(e)))
             return
+        if fmt == "votable" and isinstance(e, TypeError) and "can not be represented in VOTable" in str(e):
+            # VOTable has no int8 / uint16 / uint32 type and says so: the format cannot represent the column
+            ctx.count("write_refused_dtype_not_in_votable")
+            return
         ctx.evaluation([describe_cols(selected), fmt, skind, list(shape)], nrows > 0)
         ctx.count("trips_%s" % cell)
         ctx.violation(dict(sig0, kind="write_exception", exc=exc_name(e), has_uint="u8" in kinds, has_non_ascii=non_ascii,
+                           has_dask="dask" in kinds, has_object_text="str:object" in kinds,
                            first_component_uint=selected[0][1] == "u8"), detail(error=repr(e)[:300]))
         return
     if not os.path.exists(path):
@@ -393,7 +609,8 @@ def trip(ctx, scratch, fmt, spec, table, d, dc, cols, shape, skind, stem, chaine
     except Exception as e:
         ctx.evaluation([describe_cols(selected), fmt, skind, list(shape)], nrows > 0)
         ctx.count("trips_%s" % cell)
-        ctx.violation(dict(sig0, kind="read_exception", exc=exc_name(e), has_uint="u8" in kinds, only_uint=kinds == ["u8"],
+        ctx.violation(dict(sig0, kind="read_exception", exc=exc_name(e), has_uint="u8" in kinds, only_uint=kinds == ["u8"], has_int8="i8" in kinds,
+                           has_dask="dask" in kinds, has_object_text="str:object" in kinds,
                            has_text=any(k.startswith("str:") for k in kinds), single_column=len(selected) == 1),
                       detail(error=repr(e)[:300]))
         return
@@ -410,6 +627,12 @@ def trip(ctx, scratch, fmt, spec, table, d, dc, cols, shape, skind, stem, chaine
             loaded.append((cid.label, b, cid))
     lnames = [l[0] for l in loaded]
     enames = [c[0].upper() if fmt == "gridded_fits" else c[0] for c in expect]
+    if fmt == "votable":
+        # a VOTable field is addressed by an XML ID, which cannot start with a digit: astropy prefixes "_"
+        fixed = ["_" + n if (n[:1].isdigit() and "_" + n in lnames and n not in lnames) else n for n in enames]
+        if fixed != enames:
+            ctx.count("accepted_votable_id_prefix_for_digit_first_name")
+            enames = fixed
     ok_all = True
     missing = [n for n in enames if n not in lnames]
     extra = [n for n in lnames if n not in enames]
@@ -482,7 +705,7 @@ def run_table(ctx, i):
     rng = ctx.rng
     scratch = Scratch()
     try:
-        d, cols, shape = gen_table(rng)
+        d, cols, shape = gen_table(rng, ctx, i)
         dc = DataCollection([d])
         for c in cols:
             ctx.count("generated_column_%s" % c[1])
@@ -500,7 +723,7 @@ def run_image(ctx, i):
     rng = ctx.rng
     scratch = Scratch()
     try:
-        d, cols, shape = gen_image(rng)
+        d, cols, shape = gen_image(rng, ctx)
         dc = DataCollection([d])
         for c in cols:
             ctx.count("generated_image_component_%s" % c[1])
@@ -567,12 +790,32 @@ def run_session(ctx, i):
             except Exception as e:
                 ctx.count("session_setup_failed_%s_%s" % (fmt, exc_name(e)))
                 continue
-            mod = SESSION_MODS[(i // len(SESSION_FORMATS) + k) % len(SESSION_MODS)] if k == 0 else rng.choice(SESSION_MODS)
+            mod = SESSION_MODS[(i // len(SESSION_FORMATS) + i + k) % len(SESSION_MODS)] if k == 0 else rng.choice(SESSION_MODS)
             for b in back:
                 dc.append(b)
                 origin.append((fmt, mod, b))
         if len(dc) == 0:
             ctx.count("session_cases_without_files")
+            return
+        shape_hist = ["plain", "same_file_twice", "plain", "remove_readd", "remove_first_keep_rest"][(i // 3) % 5]
+        try:
+            if shape_hist == "same_file_twice":
+                fmt0, mod0, d0 = origin[0]
+                again = as_list(load_data(d0._load_log.path))
+                for b in again:
+                    dc.append(b)
+                    origin.append((fmt0, "none", b))
+            elif shape_hist == "remove_readd":
+                fmt0, mod0, d0 = origin[0]
+                dc.remove(d0)
+                dc.append(d0)
+                origin.append(origin.pop(0))
+            elif shape_hist == "remove_first_keep_rest" and len(origin) > 1:
+                dc.remove(origin[0][2])
+                origin.pop(0)
+            ctx.count("session_history_%s" % shape_hist)
+        except Exception as e:
+            ctx.count("session_history_failed_%s_%s" % (shape_hist, exc_name(e)))
             return
         # ---- touch the loaded datasets the way a user would before saving
         for fmt, mod, d in origin:
@@ -669,6 +912,40 @@ def run_session(ctx, i):
         scratch.close()
 
 
+BIG_FORMATS = [("csv", 100000), ("fits_table", 100000), ("hdf5", 100000), ("votable", 20000)]
+BIG_QUICK = {"csv": 30000, "votable": 10000}       # the text formats are slow: 10^5 rows only in the thorough tier
+
+
+def run_big(ctx, i):
+    """A table with 2x10^4 - 10^5 rows (duplicates, NaN, text) through one format: whole, first/last row, a proper subset."""
+    rng = ctx.rng
+    scratch = Scratch()
+    try:
+        fmt, n = BIG_FORMATS[i % len(BIG_FORMATS)]
+        if ctx.tier == "quick":
+            n = BIG_QUICK.get(fmt, n)
+        nprng = ctx.nprng
+        f = nprng.uniform(-1e6, 1e6, n).round(3)
+        f[nprng.randint(0, n, n // 50)] = np.nan
+        f[n // 2:] = f[: n - n // 2]                          # duplicates
+        k = nprng.randint(-1000, 1000, n).astype(np.int64)
+        k[0], k[-1] = 2 ** 40 + 3, -(2 ** 33)
+        words = np.array(["ab", "xyz", "north", "Hello", "q"])
+        t = words[nprng.randint(0, len(words), n)]
+        cols = [["flux", "f64", f], ["idx", "i64", k], ["name_1", "str:plain", t]]
+        d = Data(label="bigtab")
+        for name, kind, vals in cols:
+            d.add_component(vals, name)
+        dc = DataCollection([d])
+        ctx.count("big_tables_%s" % fmt)
+        kinds = ["data", rng.choice(["first", "last"]), "proper"] if fmt != "votable" else ["data", rng.choice(["first", "last"])]
+        for k_, skind in enumerate(kinds):
+            trip(ctx, scratch, fmt, TABLE_FORMATS[fmt], True, d, dc, cols, (n,), skind, "b%d_%d" % (i, k_), plain=True)
+            ctx.count("big_trips_%s" % fmt)
+    finally:
+        scratch.close()
+
+
 CHAIN_KINDS = ["f64", "f64", "f32", "i64", "i32", "i16", "str:plain"]
 
 
@@ -728,12 +1005,18 @@ def run_chain(ctx, i):
 
 
 def cases(tier, seed):
-    import random
-    allc = ([["table", i] for i in range(N_TABLE[tier])] + [["image", i] for i in range(N_IMAGE[tier])] +
-            [["session", i] for i in range(N_SESSION[tier])] + [["chain", i] for i in range(N_CHAIN[tier])])
-    random.Random(19).shuffle(allc)
-    for c in allc:
-        yield c
+    """Heavy cases first, then a proportional interleave in index order: a run truncated by the time budget has executed
+    a prefix of every workload, and the classes that are fixed by the case index are all covered early."""
+    for i in range(N_BIG[tier]):
+        yield ["big", i]
+    kinds = [("table", N_TABLE[tier]), ("image", N_IMAGE[tier]), ("session", N_SESSION[tier]), ("chain", N_CHAIN[tier])]
+    total = max(n for _, n in kinds)
+    done = dict((k, 0) for k, _ in kinds)
+    for step in range(1, total + 1):
+        for k, n in kinds:
+            while done[k] < n and done[k] * total < step * n:
+                yield [k, done[k]]
+                done[k] += 1
 
 
 def run_case(ctx, case):
@@ -745,6 +1028,8 @@ def run_case(ctx, case):
         run_session(ctx, case[1])
     elif case[0] == "chain":
         run_chain(ctx, case[1])
+    elif case[0] == "big":
+        run_big(ctx, case[1])
     else:
         raise ValueError(case)
 
@@ -785,13 +1070,31 @@ def floors(counters, tier):
             key = ("factory_coords" if "_factory_coords_" in k else "factory_no_coords", k.split("coords_", 1)[1])
             mods[key] = mods.get(key, 0) + v
     for fc in ("factory_coords", "factory_no_coords"):
-        for m in ("none", "identity_coords", "affine_coords", "derived"):
-            if mods.get((fc, m), 0) < 2:
-                out.append("fewer than 2 by-reference datasets with %s and modification %s" % (fc, m))
+        touched = sum(mods.get((fc, m), 0) for m in ("identity_coords", "affine_coords", "derived_and_coords"))
+        if touched < 1:
+            out.append("no by-reference dataset with %s whose coords were assigned after loading" % fc)
+        if mods.get((fc, "none"), 0) < 1:
+            out.append("no untouched by-reference dataset with %s" % fc)
+    if sum(mods.get((fc, "derived"), 0) + mods.get((fc, "derived_and_coords"), 0) for fc in ("factory_coords", "factory_no_coords")) < 2:
+        out.append("fewer than 2 by-reference datasets with a derived component added after loading")
     if c("session_world_axes_compared", 0) < 10:
         out.append("fewer than 10 world axes compared after a by-reference restore")
     if c("session_derived_compared", 0) < 5:
         out.append("fewer than 5 derived components compared after a by-reference restore")
+    need = {"tables_with_40_or_more_columns": 1, "tables_with_100_or_more_rows": 4, "tables_with_reordered_components": 3,
+            "column_layout_strided": 20, "column_layout_reversed": 20, "image_layout_fortran": 5, "image_layout_broadcast": 3,
+            "subset_defined_by_unordered_duplicate_indices": 10, "subset_defined_by_backward_slice": 3,
+            "writes_over_an_existing_export": 15, "fault_failed_load_before_valid_load": 10, "images_with_coords_wcs": 5,
+            "session_history_same_file_twice": 1, "session_history_remove_readd": 1}
+    for k in EDGE_NAMES:
+        need["name_class_%s" % k] = 1
+    for k, n in sorted(need.items()):
+        if c(k, 0) < n:
+            out.append("fewer than %d %s" % (n, k))
+    if sum(v for k, v in counters.items() if k.startswith("fault_failed_write_before_valid_write_")) < 5:
+        out.append("fewer than 5 valid exports to a path where an export had just failed")
+    if sum(v for k, v in counters.items() if k.startswith("big_trips_")) < 4:
+        out.append("fewer than 4 trips of tables with 2x10^4 - 10^5 rows")
     if c("order_compared_same", 0) + c("order_compared_differs", 0) < 100:
         out.append("fewer than 100 component-order comparisons")
     return out
